@@ -179,7 +179,7 @@ def run_shard(shard: dict) -> dict:
     from .. import runner
 
     col = Collector()
-    gate = specgen.Gate(domain.excluded("C01", "C07", "C04"))  # C04: calls that cannot be made (non-string header values) would leave the package undecided
+    gate = specgen.Gate(domain.excluded("C01", "C03", "C07", "C04"))  # C04: calls that cannot be made (non-string header values) would leave the package undecided
     cases = hyp.draw_cases(specgen.cases(gate, max_schemas=2, max_ops=5, min_ops=1), shard["n"], shard["seed"])
     col.excluded.update(gate.excluded)
     for i, case in enumerate(cases):
